@@ -193,6 +193,8 @@ def features(prefix):
             on = state["nodes"].get(e["node"], {}).get("pods", {}).get(e["p"], {})
             if cfg.get("pods", {}).get(e["p"], {}).get("kind") == "frac" and on.get("st", "none") != "none" and on.get("groups") != e["g"]:
                 f.add("movegpu")
+        if e["ev"] == "Call" and e["op"] == "Pipeline" and cfg.get("pods", {}).get(e["p"], {}).get("kind") == "frac":
+            f.add("fracpipe")
         if e["ev"] == "Call" and e["op"] == "Convert":
             f.add("convert")
         if e["ev"] == "Cache" and e["ok"] == 0:
@@ -297,3 +299,87 @@ def validate(ctx, trace_path, prefixes, label, timeout=3000, heap="8g", max_repo
     if drifts:
         raise vlib.Infra("specification drift (model of Stmt.tla and real code disagree) in %d scenario(s); first:\n%s" % (len(drifts), drifts[0]))
     return nviol
+
+
+# ------------------------------------------------------------------------------------------------
+# the stage
+# ------------------------------------------------------------------------------------------------
+RULE = ("programs = (a) every transition of the exhaustive TLC state graph of spec/Stmt.tla over the listed scenarios/bounds, "
+        "each as a labelled path from Init (maximal paths; quick tier: a seeded sample when there are more than the cap), and "
+        "(b) seeded random well-formed programs from harness/cmd/stmt (nested checkpoints, rollback, unevict, evict-then-pipeline "
+        "of the same pod incl. to another GPU, convert, several statements per session, commit with injected Bind/Evict failures); "
+        "every program runs on a real Statement of a fresh real Session; non-trivial = the program contains a Rollback, Discard "
+        "or Commit; distinct by (scenario, operation sequence)")
+
+ASSUMPTIONS = [
+    "GPU groups of a Pending pod are a caller scratch field (gpu_sharing assigns them before Allocate/Pipeline and nothing restores them): normalised to empty in the C13 comparison",
+    "zero-valued entries of the per-GPU-group maps are equal to absent entries (group ids are fresh UUIDs in production)",
+    "sessions come from the real snapshot of a real SchedulerCache on fake clientsets; only Session.Cache is wrapped (recording, failure injection); resource claims / storage are not part of the scenarios",
+    "Stmt.tla models the intended behaviour for findings F14 (restore node entry when un-pipelining a GPU move) and F15 (failed Cache.Evict undoes the pod's operations); other oddities of statement.go are transcribed as they are",
+    "well-formed programs are those the actions can issue: Evict on Running pods, Allocate on Pending pods that fit idle resources, Pipeline on Pending or virtually evicted pods that fit idle+releasing resources, Convert on allocate-shaped statements, Rollback only to logged checkpoints",
+    "TLC, CommunityModules Json and the harness projection (floats -> milli-units) are trusted",
+]
+
+
+def count_cases(ctx, trace_path, sample_every=997):
+    n = 0
+    events = vlib.read_ndjson(trace_path)
+    for (s, e) in vlib.scenario_index(events):
+        scen = events[s - 1:e]
+        prog = program_of(scen)
+        nontrivial = any(l["n"] in ("Rollback", "Discard", "CommitBegin") for l in prog)
+        ctx.count_case([scen[0]["cfg"], prog], nontrivial)
+        n += 1
+        if nontrivial and n % sample_every == 1:
+            ctx.sample({"program": describe(scen, 30), "class": scen[0].get("class"),
+                        "final_pod_statuses_from_real_code": {p: v["st"] for p, v in scen[-1].get("state", scen[0]["state"])["pods"].items()}
+                        if "state" in scen[-1] else None})
+
+
+def run_stage(ctx, prefixes):
+    """C13 and/or C14 (workload/queue part) judged on statement-level traces of the real code."""
+    import random
+    binary = vlib.go_build("stmt")
+    ctx.cov["rule"] = RULE
+    for a in ASSUMPTIONS:
+        if a not in ctx.assumptions:
+            ctx.assumptions.append(a)
+    rnd = random.Random(ctx.seed)
+    if ctx.quick:
+        plans = [("A", SCN_WHOLE, dict(MaxOps=4, MaxFail=1, MaxStmts=1), 1000),
+                 ("B", SCN_FRAC, dict(MaxOps=4, MaxFail=1, MaxStmts=1), 1500)]
+        nrandom, rlen = 160, 50
+    else:
+        plans = [("A", SCN_WHOLE, dict(MaxOps=6, MaxFail=1, MaxStmts=1), 60000),
+                 ("A2", SCN_WHOLE, dict(MaxOps=3, MaxFail=2, MaxStmts=2), 60000),
+                 ("B", SCN_FRAC, dict(MaxOps=5, MaxFail=1, MaxStmts=1), 60000)]
+        nrandom, rlen = 6000, 120
+    traces = []
+    for name, scn, bounds, cap in plans:
+        model_check(ctx, name, scn, bounds, prefixes)
+        ntrans, leaves = export_paths(ctx, name, scn, bounds)
+        if len(leaves) > cap:
+            leaves = sorted(rnd.sample(leaves, cap))
+        ctx.cov["edges_replayed_on_impl"] += sum(len(p) for p in leaves)
+        traces.append(replay_paths(ctx, binary, name, scn, leaves))
+    rt = os.path.join(ctx.scratch, "trace-random.ndjson")
+    p = vlib.run_harness(binary, ["-random", str(nrandom), "-seed", str(ctx.seed), "-len", str(rlen), "-out", rt])
+    ctx.stage("random-programs", out=p.stdout.strip())
+    traces.append(rt)
+    # one TLC run per batch of traces (JVM start and JSON parsing are paid once)
+    batch, size, k = [], 0, 0
+    for t in traces + [None]:
+        if t is not None and os.path.getsize(t) > 0:
+            count_cases(ctx, t)
+            batch.append(t)
+            size += os.path.getsize(t)
+        if batch and (t is None or size > 300e6):
+            allp = os.path.join(ctx.scratch, "trace-all-%d.ndjson" % k)
+            with open(allp, "w") as out:
+                for b in batch:
+                    with open(b) as f:
+                        for line in f:
+                            out.write(line)
+            validate(ctx, allp, prefixes, "batch%d" % k)
+            batch, size, k = [], 0, k + 1
+    ctx.cov["exhaustive"] = False
